@@ -87,9 +87,13 @@ def align_shape(*polys: PolyLike) -> Tuple[ndpoly, ...]:
 
     for idx, poly in enumerate(polys_):
         if poly.shape != common.shape:
+            # broadcast without arithmetic, so the coefficient dtype is kept
             polys_[idx] = poly.from_attributes(
                 exponents=poly.exponents,
-                coefficients=tuple(coeff * common for coeff in poly.coefficients),
+                coefficients=tuple(
+                    numpy.array(numpy.broadcast_to(coeff, common.shape))
+                    for coeff in poly.coefficients
+                ),
                 names=poly.indeterminants,
             )
     return tuple(polys_)
